@@ -84,7 +84,7 @@ def kernels(wd, names=('etf',)):
     CHECK(OUT[5] == v, "the functor receives exactly the values of the handle (the top n stack slots), in right-side order, at ANY stack height");
     CHECK((OUT[11] & 7u) == 0, "MACHINERY-free logs");
   }''',
-            witness='H > 65540 && OUT[8] == 1 && OUT[3] == 3 && OUT[0] == 1', default_unwind=6, bounds={'k_reduce_step': g.max_rhs + 2, 'erase': g.max_rhs + 3},
+            witness='H > 65540 && OUT[8] == 1 && OUT[0] == 1', default_unwind=6, bounds={'k_reduce_step': g.max_rhs + 2, 'erase': g.max_rhs + 3},
             mode='functional', meta={'module': 'c02_step', 'grammar': nm, 'max_height': '2^40'}, timeout=900, mem_gb=20))
     return ks
 
